@@ -63,7 +63,16 @@ pub trait HasChildren: HasContext {
     }
 
     fn insert_before(&self, value: Rc<XmlItem>, id: usize) -> error::Result<Rc<XmlItem>> {
-        self.child_index(id).ok_or(error::Error::OufOfIndex(id))?;
+        let index = self.child_index(id).ok_or(error::Error::OufOfIndex(id))?;
+        if value.id() == id {
+            // The node is its own reference. It is taken out first, so it goes in front of the
+            // node that follows it.
+            return match self.child_by_index(index + 1) {
+                Some(next) => self.insert_before(value, next.id()),
+                None => self.append(value),
+            };
+        }
+
         let value = self.insert_by_id(value, Some(id))?;
         self.context().invalidate_order();
         Ok(value)
@@ -1527,7 +1536,10 @@ impl HasChildren for XmlDocument {
                 }
             }
             XmlItem::Element(_) => {
-                if self.document_element().is_ok() {
+                if self
+                    .document_element()
+                    .is_ok_and(|v| v.borrow().id() != value.id())
+                {
                     Err(error::Error::InvalidType)
                 } else {
                     add_or_insert(self, value.clone(), id);
@@ -2090,7 +2102,7 @@ impl HasChildren for XmlElement {
     }
 
     fn insert_by_id(&self, value: Rc<XmlItem>, id: Option<usize>) -> error::Result<Rc<XmlItem>> {
-        if self.ancestor(value.id()) {
+        if value.id() == self.id() || self.ancestor(value.id()) {
             return Err(error::Error::InvalidHierarchy);
         }
 
